@@ -345,6 +345,12 @@ pub fn process<I: BufRead, O: Write>(
                     Some(string) => {
                         in_multiline_comments = false;
                         remaining = string;
+                        // A comment separates the tokens around it, like a space
+                        if !uncommented_buf.is_empty()
+                            && !uncommented_buf.ends_with(char::is_whitespace)
+                        {
+                            uncommented_buf.push(' ');
+                        }
                         if !remaining.is_empty() {
                             if remaining.eq("\n") {
                                 remaining = "";
